@@ -1486,8 +1486,28 @@ int scpiParser_parseAllProgramData(lex_state_t * state, scpi_token_t * token, in
         } else {
             token->type = SCPI_TOKEN_UNKNOWN;
             token->len = 0;
+            /* a quoted string that the end of the data cuts is incomplete, like a block: it takes
+             * the rest of the input, so that a line terminator inside it is not acted on */
+            if (!scpiLex_IsEos(state) && ((state->pos[0] == '"') || (state->pos[0] == '\''))) {
+                const char * end = state->buffer + state->len;
+                const char * q;
+                char quote = state->pos[0];
+
+                for (q = state->pos + 1; q < end; q++) {
+                    if (q[0] == quote) {
+                        if ((q + 1 < end) && (q[1] == quote)) {
+                            q++; /* doubled quote inside the string */
+                        } else {
+                            break; /* closing quote */
+                        }
+                    }
+                }
+                if (q >= end) {
+                    state->pos = (char *) end;
+                }
+            }
             /* nothing at all is an empty list; nothing after a comma is an invalid one, and so is
-             * an incomplete block that the lexer has swallowed up to the end of the input */
+             * an incomplete block or string that has swallowed the rest of the input */
             {
                 const char * p;
                 for (p = token->ptr; (paramCount == 0) && (p < state->pos); p++) {
